@@ -571,12 +571,23 @@ class Gen(object):
 
     def s_formulti(self, depth):
         self.labels.add("for-multikey")
+
+        def framed(stmt, keys, body):
+            # every iteration is observable, and a break/continue tied to the leaf value fires in the middle of the traversal
+            out = [("print", ("bin", ".", ("str", self.fresh_tag()), ("bin", ".", ("local", keys[0]), ("local", keys[-1]))))] + body
+            if self.chance(60):
+                self.labels.add("break-continue")
+                out.append(("if", [(("bin", self.pick(["==", ">=", "<"]), ("local", "v"), ("int", self.i(0, 9))), [(self.pick(["break", "break", "continue"]),)])], None))
+                out.append(("print", ("bin", ".", ("str", self.fresh_tag()), ("local", "v"))))
+            return out
         if self.chance(50):
-            return [("formulti", ["k1", "k2"], "v", self.e_nmap(1), self.loop_body(depth, {"k1": "ro-str", "k2": "ro-str", "v": "int"}))]
+            body = self.loop_body(depth, {"k1": "ro-str", "k2": "ro-str", "v": "int"})
+            return [("formulti", ["k1", "k2"], "v", self.e_nmap(1), framed(None, ["k1", "k2"], body))]
         # three key levels
         m = ("maplit", [(("str", a), ("maplit", [(("str", b), ("maplit", [(("str", c), ("int", self.i(0, 9))) for c in WORDS[5:5 + self.i(1, 2)]])) for b in WORDS[3:3 + self.i(1, 2)]]))
                         for a in WORDS[:self.i(1, 3)]])
-        return [("formulti", ["k1", "k2", "k3"], "v", m, self.loop_body(depth, {"k1": "ro-str", "k2": "ro-str", "k3": "ro-str", "v": "int"}))]
+        body = self.loop_body(depth, {"k1": "ro-str", "k2": "ro-str", "k3": "ro-str", "v": "int"})
+        return [("formulti", ["k1", "k2", "k3"], "v", m, framed(None, ["k1", "k2", "k3"], body))]
 
     def s_for3(self, depth):
         self.labels.add("for-3part")
